@@ -368,6 +368,20 @@ def run(chk, R, tier, seed):
                 plan.append(d)
             except Exception:
                 pass
+        # a counting type: integral quantum written as a plain int, units
+        # that are int multiples of the reference unit given as terms (their
+        # own quantum is 1/12, 1/7: nothing here may become a float)
+        for d in (Decl("base", name="Tally0", ref="cx0",
+                       quantum=rng.choice([F(1), F(12)])),
+                  Decl("term", t="Tally0", sym="cx12", kkind="int",
+                       items=[(("n", F(12)), 1), (("u", "cx0"), 1)]),
+                  Decl("term", t="Tally0", sym="cx7", kkind="int",
+                       items=[(("n", F(7)), 1), (("u", "cx0"), 1)])):
+            try:
+                d.apply(ww)
+                plan.append(d)
+            except Exception:
+                break
         planj = [d.to_json() for d in plan]
         wid = "world%d" % wi
         subs = []
